@@ -1036,16 +1036,18 @@ std::string strip_path(const std::string& path, int amount)
 
     int remaining_to_strip = amount;
     auto stripped_begin = path.begin();
-    for (auto c = path.begin(); c != path.end(); ++c) {
-        if (filesystem::is_seperator(*c)) {
-            // A double slash resolves as the same path as a single one does.
+    for (auto c = path.begin(); c != path.end();) {
+        if (!filesystem::is_seperator(*c)) {
             ++c;
-            if (c != path.end() && filesystem::is_seperator(*c))
-                ++c;
-
-            if (--remaining_to_strip >= 0)
-                stripped_begin = c;
+            continue;
         }
+
+        // Any run of slashes resolves as the same path as a single one does.
+        while (c != path.end() && filesystem::is_seperator(*c))
+            ++c;
+
+        if (--remaining_to_strip >= 0)
+            stripped_begin = c;
     }
 
     // Ignore the name if we don't have enough to strip
